@@ -105,6 +105,11 @@ def lookaheadScan (wanted : Char) : Nat â†’ List Char â†’ Nat â†’ Bool â†’ Nat â
       let n := (decideNextToken (c :: cs)).2
       let n := if n == 0 then 1 else n
       lookaheadScan wanted fuel ((c :: cs).drop n) (idx + n) seen paren brace
+    else if c == '"' && (decideNextToken (c :: cs)).1 == .String then
+      -- a string literal is skipped as a whole, and counts as a token seen
+      let n := (decideNextToken (c :: cs)).2
+      let n := if n == 0 then 1 else n
+      lookaheadScan wanted fuel ((c :: cs).drop n) (idx + n) true paren brace
     else if eqIgnoreAsciiCase c wanted && seen && paren == 0 && brace == 0 then some idx
     else if c == '(' then lookaheadScan wanted fuel cs (idx + 1) (seen || !isWhitespace c) (paren + 1) brace
     else if c == ')' then
